@@ -560,10 +560,38 @@ def advance_target(rng, hist):
     return min(max(key, now), max(now, MAX_KEY))
 
 
-def gen_history(rng, env, variant, length, p_stop=0.04, p_fail=0.03, chunked=0.25, h=None):
+def register_line(rng, hist):
+    """set/get of the registers that have a read-back path, reset, and a few bystanders (C05)"""
+    r = rng.random()
+    if r < 0.2:
+        return '?set-configuration' + (',' + rng.choice(CONFS) if rng.random() < 0.95 else '')
+    if r < 0.4:
+        return '?set-filename' + (',' + rng.choice(FILES) if rng.random() < 0.95 else '')
+    if r < 0.6:
+        return '?set-integration' + (',' + rng.choice(INT_TOKS) if rng.random() < 0.95 else '')
+    if r < 0.8:
+        return rng.choice(['?get-configuration', '?get-filename', '?get-integration'])
+    if r < 0.85:
+        return '?reset'
+    return request_line(rng, hist)
+
+
+def query_block():
+    """every query of the catalogue, each on its own line (C02)"""
+    return ''.join('?%s\r\n' % q for q in ('status', 'version', 'time', 'get-configuration', 'get-integration',
+                                            'get-filename', 'get-tpi', 'get-tp0'))
+
+
+def gen_history(rng, env, variant, length, p_stop=0.04, p_fail=0.03, chunked=0.25, h=None, p_bad=0.22,
+                p_reply=0.1, p_reg=0.0):
     """one random history (continuing `h` when given); returns the History"""
     if h is None:
         h = History(env, variant)
+
+    def line():
+        if rng.random() < p_reg:
+            return register_line(rng, h)
+        return next_line(rng, h, p_bad, p_reply)
     carry = ''
     for _ in range(length):
         r = rng.random()
@@ -574,10 +602,10 @@ def gen_history(rng, env, variant, length, p_stop=0.04, p_fail=0.03, chunked=0.2
         elif r < 0.2 + p_stop + p_fail or (h.system.failure and rng.random() < 0.3):
             h.set_failure(not h.system.failure)
         else:
-            data = carry + next_line(rng, h) + '\r\n'
+            data = carry + line() + '\r\n'
             carry = ''
             if rng.random() < 0.1:
-                data += next_line(rng, h) + '\r\n'
+                data += line() + '\r\n'
             if rng.random() < chunked and len(data) > 3:
                 i = rng.randrange(1, len(data))
                 h.bytes(data[:i])
